@@ -416,8 +416,8 @@ STANDINS = {
     'C17': [{'name': 'bounded_config', 'bin': 'bounded_config', 'extract': False,
              'assumed_contract': 'none assumed: Config::new / ClientConfig::new are under contract; this executes them against an executable twin of the fold specification so that a '
                                  'change that makes the annotations inapplicable (new helper, restructured loop) still meets a concrete check',
-             'bound': 'every argument vector of 0..3 units over 27 server units / 23 client units (all flags, short and long forms, valid, invalid and missing values, existing and missing '
-                      'directories, unknown flag) - about 33 000 vectors; -h/--help left out (ends the process)'}],
+             'bound': 'every argument vector of 0..3 units over 31 server units / 23 client units (all flags, short and long forms, valid, invalid and missing values, existing and missing '
+                      'directories, unknown flag) - about 43 000 vectors; -h/--help left out (ends the process)'}],
     'C14': [{'name': 'bounded_client', 'bin': 'bounded_client', 'extract': False, 'confirm': True, 'bins': True, 'args': {'quick': ['quick'], 'thorough': ['full']},
              'assumed_contract': 'interoperation of the bundled client and server (Client::upload / Client::download are outside Verus; two endpoints over UDP are not a function contract): '
                                  'byte-identical files on both sides, download stored under the base name in the receive directory, refusals create no file',
